@@ -296,7 +296,8 @@ def check(run):
     st.discharge(run, obs, functions=["piquasso/_simulators/gaussian/simulation_steps.py:linear",
                                       "piquasso/_simulators/gaussian/simulation_steps.py:passive_linear",
                                       "piquasso/_simulators/gaussian/simulation_steps.py:displacement",
-                                      "piquasso/_simulators/gaussian/simulation_steps.py:vacuum"])
+                                      "piquasso/_simulators/gaussian/simulation_steps.py:vacuum",
+                                      "piquasso/_simulators/gaussian/simulation_steps.py:deterministic_gaussian_channel"])
     try:
         from contracts import C06_int
         from vf import lean
